@@ -514,6 +514,18 @@ def _has_return(block):
     return False
 
 
+def _always_jumps(block):
+    """every path through the block ends in return / raise / continue / break"""
+    if not block:
+        return False
+    st = block[-1]
+    if isinstance(st, (ast.Return, ast.Raise, ast.Continue, ast.Break)):
+        return True
+    if isinstance(st, ast.If):
+        return _always_jumps(st.body) and _always_jumps(st.orelse)
+    return False
+
+
 def _returns_to_tail(block):
     """guards ending in a return, and try statements whose handlers all end in a jump, take
     the statements that follow them as their else branch"""
@@ -523,7 +535,7 @@ def _returns_to_tail(block):
         if isinstance(st, ast.If):
             st.body = _returns_to_tail(st.body)
             st.orelse = _returns_to_tail(st.orelse)
-            if rest and _has_return([st]) and not st.orelse and _ends_in_jump(st.body):
+            if rest and _has_return([st]) and not st.orelse and _always_jumps(st.body):
                 st.orelse = _returns_to_tail(rest)
                 out.append(st)
                 return out
@@ -532,7 +544,7 @@ def _returns_to_tail(block):
                 h.body = _returns_to_tail(h.body)
             st.orelse = _returns_to_tail(st.orelse)
             if rest and _has_return([st]) and not st.orelse and not st.finalbody \
-                    and st.handlers and all(_ends_in_jump(h.body) for h in st.handlers):
+                    and st.handlers and all(_always_jumps(h.body) for h in st.handlers):
                 st.orelse = _returns_to_tail(rest)
                 out.append(st)
                 return out
@@ -823,6 +835,24 @@ class _Inliner:
                         out.append(st)
                         self.changed = True
                         continue
+            # several-returns helper as the whole test of an if statement: the if statement is
+            # carried to every return
+            if isinstance(st, ast.If) and isinstance(st.test, ast.Call):
+                h = self.target(st.test)
+                if h and h[1] == "multi":
+                    m = _bind(h[0], st.test, h[3])
+                    if m is not None:
+                        body = self.splice(h, m, st)
+
+                        def make_if(value, st=st):
+                            new = ast.If(test=value, body=copy.deepcopy(st.body),
+                                         orelse=copy.deepcopy(st.orelse))
+                            return ast.copy_location(new, st)
+                        out.extend(self.block(_replace_returns(body, make_if)))
+                        self.changed = True
+                        continue
+            if call is not None:
+                h = self.target(call)
                 if h and h[1] == "multi":
                     m = _bind(h[0], call, h[3])
                     if m is not None:
@@ -1291,7 +1321,58 @@ def simplify_block(block, facts=None):
     return out
 
 
+def renumber(tree):
+    """Line numbers of the canonical tree follow its own statement order (inlined statements
+    would otherwise carry the lines of their helper): statement k of the depth-first order is on
+    line k, its expressions with it.  The line in the file is kept as `_src_line` for reports."""
+    counter = [0]
+
+    def expr_nodes(node, line, src):
+        for ch in ast.iter_child_nodes(node):
+            if isinstance(ch, (ast.stmt, ast.excepthandler, ast.match_case)):
+                continue
+            if hasattr(ch, "lineno") or isinstance(ch, (ast.expr, ast.arg, ast.keyword,
+                                                        ast.alias, ast.withitem)):
+                if "_src_line" not in ch.__dict__:
+                    ch.__dict__["_src_line"] = src
+                if "lineno" in ch._attributes:
+                    ch.lineno = ch.end_lineno = line
+                    ch.col_offset = ch.end_col_offset = 0
+            expr_nodes(ch, line, ch.__dict__.get("_src_line", src))
+
+    def block(stmts, src):
+        for st in stmts:
+            counter[0] += 1
+            line = counter[0]
+            if "_src_line" not in st.__dict__:
+                st.__dict__["_src_line"] = src
+            mine = st.__dict__["_src_line"]
+            st.lineno = line
+            st.col_offset = st.end_col_offset = 0
+            expr_nodes(st, line, mine)
+            for field in ("body", "orelse", "finalbody"):
+                b = getattr(st, field, None)
+                if isinstance(b, list) and b and isinstance(b[0], ast.stmt):
+                    block(b, mine)
+            for h in getattr(st, "handlers", []) or []:
+                counter[0] += 1
+                if "_src_line" not in h.__dict__:
+                    h.__dict__["_src_line"] = mine
+                h.lineno = counter[0]
+                h.col_offset = h.end_col_offset = 0
+                expr_nodes(h, counter[0], h.__dict__["_src_line"])
+                block(h.body, h.__dict__["_src_line"])
+                h.end_lineno = counter[0]
+            for c in getattr(st, "cases", []) or []:
+                block(c.body, mine)
+            st.end_lineno = counter[0]
+    block(tree.body, 0)
+
+
 def canonicalise(tree, sigs=None):
+    for n in ast.walk(tree):
+        if hasattr(n, "lineno"):
+            n.__dict__["_src_line"] = n.lineno
     if sigs:
         tree = _KwToPos(sigs).visit(tree)
     _Inliner(tree).run()
@@ -1299,6 +1380,7 @@ def canonicalise(tree, sigs=None):
     tree = _KeysNorm().visit(tree)
     tree.body = canon_block(tree.body)
     ast.fix_missing_locations(tree)
+    renumber(tree)
     propagate_all(tree)
     for x in ast.walk(tree):
         x.__dict__.pop("_cparent", None)
@@ -1308,8 +1390,10 @@ def canonicalise(tree, sigs=None):
     if ast.dump(tree) != before:
         tree.body = canon_block(tree.body)
         ast.fix_missing_locations(tree)
+        renumber(tree)
         propagate_all(tree)
         for x in ast.walk(tree):
             x.__dict__.pop("_cparent", None)
     ast.fix_missing_locations(tree)
+    renumber(tree)
     return tree
